@@ -42,28 +42,35 @@ def _implied(it, path, cond):
 _REPLAY = {}
 
 
-def replay_small(clc):
+def replay_small(clc, meth='lb'):
     """the smallest shell model (12 amplitudes, 9 active) with the default number of requested modes"""
-    if clc in _REPLAY:
-        return _REPLAY[clc]
+    if (clc, meth) in _REPLAY:
+        return _REPLAY[(clc, meth)]
     from .. import pyreplay, shell_oracle as O
     script = O.COMMON + """
 cc = make(payload)
 cc.num_eigvalues = payload['k']; cc.P = 0.01; cc.T = 10.
 try:
-    cc.lb(combined_load_case=payload['clc'])
+    getattr(cc, payload.get('meth', 'lb'))(combined_load_case=payload['clc'])
     out = {'returned': True, 'n_eig': int(len(cc.eigvals)), 'size': cc.get_size()}
 except Exception as e:
     out = {'raised_in_lb': type(e).__name__ + ': ' + str(e)[:200], 'size': cc.get_size(), 'k': payload['k']}
 """
-    pay = dict(m1=1, m2=1, n2=1, r2=250., H=500., alphadeg=0., model='clpt_donnell_bc1', k=50, clc=clc,
+    pay = dict(m1=1, m2=1, n2=1, r2=250., H=500., alphadeg=0., model='clpt_donnell_bc1', k=50, clc=clc, meth=meth,
                laminaprop=[123.55e3, 8.708e3, 0.319, 5.695e3, 5.695e3, 5.695e3], stack=[30, -30, 45], plyt=0.125)
     r = pyreplay.run_real(script, pay)
-    _REPLAY[clc] = {'reproduced': 'raised_in_lb' in r, 'input': pay, 'result': r, 'real_function': 'ConeCyl.lb'}
-    return _REPLAY[clc]
+    _REPLAY[(clc, meth)] = {'reproduced': 'raised_in_lb' in r, 'input': pay, 'result': r, 'real_function': 'ConeCyl.' + meth}
+    return _REPLAY[(clc, meth)]
 
 
 def check(led):
+    # ConeCyl.eigen is a second copy of the same wrapper (its c / kL / kG parameters are not used by the code): same contract
+    for meth in ('lb', 'eigen'):
+        _check(led, meth)
+
+
+def _check(led, meth):
+    LB = PC.CC + meth
     led.function(LB)
     from .c05 import raise_signature
     for clc in (None, 1, 2, 3):
@@ -91,7 +98,7 @@ def check(led):
             cc = PC.new_cc(it, model='clpt_donnell_bc1', alphadeg=0., r2=real('r2'), L=real('L'), Fc=real('Fc'), num_eigvalues=num,
                            stack=[real('th0')], plyt=real('plyt'), laminaprop=(real('E1'),))
             try:
-                it.call(it.getattr(cc, 'lb'), [], dict(combined_load_case=clc))
+                it.call(it.getattr(cc, meth), [], dict(combined_load_case=clc))
             except SymRaise as e:
                 e.calls = list(log)
                 raise
@@ -108,7 +115,7 @@ def check(led):
                 e = out[1]
                 led.fail('%s/no-exception/%s' % (name, raise_signature(e)), LB,
                          {'raises': e.tname, 'message': [str(a)[:160] for a in e.eargs], 'path': [repr(c)[:80] for c in path.conds][-6:]},
-                         signature=raise_signature(e), replay=replay_small(clc))
+                         signature=raise_signature(e), replay=replay_small(clc, meth))
                 continue
             cc, calls = out[1]
             solver = [c for c in calls if c['fn'] == 'eigsh']
